@@ -11,7 +11,7 @@ VARIANTS = {"quick": ["O1"], "thorough": ["O1", "asan"]}
 AXIOMS_ALLOWED = []          # MathComp only: closed under the global context
 REQUIRED_THEOREMS = ["C01_cov_information_form", "C01_mean_gain_form", "C01_is_conjugate_posterior", "C01_cov_sym",
                      "C01_cov_psd", "C01_cov_le_prior", "C01_componentwise", "C01_likelihood"]
-RULE = ("cases drawn from one seeded stream: n in 1..6, m in 1..4 (also m > n), components 1..4, P_i = Q diag(s) Q^T with "
+RULE = ("one KFCorrection object per case driven through 1..4 successive corrections (45% multi-step: later steps change y / H / R / prior with the same or different sizes), getLikelihood queried twice after each; cases drawn from one seeded stream: n in 1..6, m in 1..4 (also m > n), components 1..4, P_i = Q diag(s) Q^T with "
         "chosen condition number <= 1e6, H random / rank-deficient / zero row / selector / zero, R SPD, y arbitrary; "
         "non-trivial = components >= 2 or H not of full rank; distinct by (n, m, comps, H kind, cond decade)")
 TRUSTED_BASE = ["Coq 8.16.1 kernel (coqc); no axioms (Print Assumptions: closed under the global context)",
@@ -26,83 +26,116 @@ ASSUMPTIONS = ["Eigen inverse()/determinant() behave as matrix inverse/determina
 COUNTS = {"quick": 300, "thorough": 20000}
 
 
+def one_step(rng, n, comps, m=None):
+    m = m if m is not None else rng.randint(1, 4)
+    H, hkind = gen.measurement_matrix(rng, m, n)
+    R, condR = gen.spd(rng, m, 10 ** rng.uniform(0, 4))
+    means = gen.matrix(rng, n, comps, 3.0)
+    covs, cond = [], 1.0
+    for i in range(comps):
+        P, c = gen.spd(rng, n)
+        covs.append(P); cond = max(cond, c)
+    y = gen.matrix(rng, m, 1, 5.0)
+    w = np.array([rng.random() + 0.1 for _ in range(comps)]); w = np.log(w / w.sum())
+    condS = max(np.linalg.cond(H @ P @ H.T + R) for P in covs)
+    return dict(H=H, R=R, y=y, means=means, covs=np.hstack(covs), weights=w.reshape(-1, 1), hkind=hkind,
+                cond=max(cond, condR, condS), rankH=int(np.linalg.matrix_rank(H)), n=n, m=m, comps=comps)
+
+
 def generate(rng, tier):
+    """One KFCorrection object per case, driven through 1..4 corrections. In a multi-step case the
+    later steps change the measurement, H, R and the prior while keeping (mostly) the same sizes and
+    component count - the configuration in which state left behind by an earlier call would show."""
     cases = []
     for k in range(COUNTS[tier]):
-        n = rng.randint(1, 6); m = rng.randint(1, 4); comps = rng.randint(1, 4)
-        H, hkind = gen.measurement_matrix(rng, m, n)
-        R, condR = gen.spd(rng, m, 10 ** rng.uniform(0, 4))
-        means = gen.matrix(rng, n, comps, 3.0)
-        covs, cond = [], 1.0
-        for i in range(comps):
-            P, c = gen.spd(rng, n)
-            covs.append(P); cond = max(cond, c)
-        y = gen.matrix(rng, m, 1, 5.0)
-        w = np.array([rng.random() + 0.1 for _ in range(comps)]); w = np.log(w / w.sum())
-        # conditioning of S = HPH^T + R as well
-        condS = max(np.linalg.cond(H @ P @ H.T + R) for P in covs)
-        c = caseio.Case(k, "kf_correct", {"n": n, "m": m, "comps": comps, "hkind": hkind,
-                                          "cond": "%.3g" % max(cond, condR, condS), "rankH": int(np.linalg.matrix_rank(H))})
-        c.mat("H", H).mat("R", R).mat("y", y).mat("means", means).mat("covs", np.hstack(covs)).mat("weights", w.reshape(-1, 1))
+        n = rng.randint(1, 6); comps = rng.randint(1, 4)
+        steps = 1 if rng.random() < 0.55 else rng.randint(2, 4)
+        st = [one_step(rng, n, comps)]
+        for t in range(1, steps):
+            r = rng.random()
+            if r < 0.6:      # same shapes, everything else different
+                st.append(one_step(rng, n, comps, st[0]["m"]))
+            elif r < 0.75:   # only the measurement changes
+                d = dict(st[-1]); d["y"] = gen.matrix(rng, d["m"], 1, 5.0); st.append(d)
+            elif r < 0.9:    # other measurement size
+                st.append(one_step(rng, n, comps))
+            else:            # other component count and state size
+                st.append(one_step(rng, rng.randint(1, 6), rng.randint(1, 4)))
+        c = caseio.Case(k, "kf_correct", {"steps": steps, "n": st[0]["n"], "m": st[0]["m"], "comps": st[0]["comps"], "hkind": st[0]["hkind"],
+                                          "cond": "%.3g" % max(x["cond"] for x in st), "rankH": st[0]["rankH"],
+                                          "shapes": ",".join("%d:%d:%d" % (x["n"], x["m"], x["comps"]) for x in st),
+                                          "conds": ",".join("%.3g" % x["cond"] for x in st)})
+        for t, x in enumerate(st):
+            s = "_s%d" % t
+            c.mat("H" + s, x["H"]).mat("R" + s, x["R"]).mat("y" + s, x["y"]).mat("means" + s, x["means"]).mat("covs" + s, x["covs"]).mat("weights" + s, x["weights"])
         cases.append(c)
     return cases
 
 
 def nontrivial(c):
     n, m, comps = int(c.meta["n"]), int(c.meta["m"]), int(c.meta["comps"])
-    if comps >= 2 or int(c.meta["rankH"]) < min(n, m):
-        return (n, m, comps, c.meta["hkind"], gen.decade(float(c.meta["cond"])))
+    if comps >= 2 or int(c.meta["rankH"]) < min(n, m) or int(c.meta["steps"]) > 1:
+        return (n, m, comps, c.meta["hkind"], gen.decade(float(c.meta["cond"])), c.meta["steps"], c.meta["shapes"])
     return None
 
 
-def fields(c):
-    out = ["components"]
-    for i in range(int(c.meta["comps"])):
-        out += ["mean%d" % i, "cov%d" % i, "lik%d" % i]
-    return out
+def step_shapes(c):
+    return [tuple(int(v) for v in x.split(":")) for x in c.meta["shapes"].split(",")]
 
 
 def compare(c, impl, model):
-    cond = float(c.meta["cond"])
-    return caseio.compare_fields(impl, model, fields(c), atol=1e-12, rtol=1e-9, scale=cond)
+    d = []
+    conds = [float(x) for x in c.meta["conds"].split(",")]
+    for t, (n, m, comps) in enumerate(step_shapes(c)):
+        s = "_s%d" % t
+        f = ["components" + s]
+        for i in range(comps):
+            f += ["mean%d%s" % (i, s), "cov%d%s" % (i, s), "lik%d%s" % (i, s)]
+        d += caseio.compare_fields(impl, model, f, atol=1e-12, rtol=1e-9, scale=conds[t])
+    return d
 
 
 def oracle(c, impl, model):
-    """The property clauses evaluated on the implementation's output."""
+    """The property clauses evaluated on the implementation's output, for every step of the sequence."""
     v = []
-    cond = float(c.meta["cond"])
-    n, comps = int(c.meta["n"]), int(c.meta["comps"])
-    covs = c.get("covs")
-    if impl.get("components") != comps:
-        v.append(("C01:component-count", "reported %s components for %d" % (impl.get("components"), comps)))
-    if impl.get("pred_unchanged") != 1:
-        v.append(("C01:prior-modified", "the predicted belief passed in was modified"))
-    if impl.get("lik_valid") != 1 or impl.get("lik_size") != comps:
-        v.append(("C01:likelihood-missing", "likelihood not reported for every component"))
-    for i in range(comps):
-        P = covs[:, i * n:(i + 1) * n]
-        Pc, mc, lik = impl.get("cov%d" % i), impl.get("mean%d" % i), impl.get("lik%d" % i)
-        scale = max(1.0, float(np.max(np.abs(P))))
-        tol = 1e-7 * cond * scale
-        if model is not None:
-            sm, sc_, sl = model.get("spec_mean%d" % i), model.get("spec_cov%d" % i), model.get("spec_lik%d" % i)
-            if not caseio.close(Pc, sc_, tol, 0):
-                v.append(("C01:cov-not-information-form", "component %d: max diff %.3g > %.3g" % (i, caseio.maxdiff(Pc, sc_), tol)))
-            mt = 1e-7 * cond * max(1.0, float(np.max(np.abs(sm))))
-            if not caseio.close(mc, sm, mt, 0):
-                v.append(("C01:mean-not-conjugate", "component %d: max diff %.3g > %.3g" % (i, caseio.maxdiff(mc, sm), mt)))
-            if not caseio.close(lik, sl, 1e-300, 1e-7 * cond):
-                v.append(("C01:likelihood-not-density", "component %d: %r vs %r" % (i, lik, sl)))
-        if not caseio.close(Pc, Pc.T, 1e-9 * cond * scale, 0):
-            v.append(("C01:cov-not-symmetric", "component %d" % i))
-        S = (Pc + Pc.T) / 2
-        if np.all(np.isfinite(S)):
-            if np.linalg.eigvalsh(S).min() < -tol:
-                v.append(("C01:cov-not-psd", "component %d: lambda_min %.3g" % (i, np.linalg.eigvalsh(S).min())))
-            if np.linalg.eigvalsh((P + P.T) / 2 - S).min() < -tol:
-                v.append(("C01:cov-larger-than-prior", "component %d" % i))
-        else:
-            v.append(("C01:cov-not-finite", "component %d" % i))
+    conds = [float(x) for x in c.meta["conds"].split(",")]
+    for t, (n, m, comps) in enumerate(step_shapes(c)):
+        s = "_s%d" % t
+        tag = "" if t == 0 else ":later-call-on-same-object"
+        cond = conds[t]
+        covs = c.get("covs" + s)
+        if impl.get("components" + s) != comps:
+            v.append(("C01:component-count" + tag, "step %d: reported %s components for %d" % (t, impl.get("components" + s), comps)))
+        if impl.get("pred_unchanged" + s) != 1:
+            v.append(("C01:prior-modified" + tag, "step %d: the predicted belief passed in was modified" % t))
+        if impl.get("lik_valid" + s) != 1 or impl.get("lik_size" + s) != comps:
+            v.append(("C01:likelihood-missing" + tag, "step %d: likelihood not reported for every component" % t))
+        if impl.get("lik_requery_same" + s) != 1:
+            v.append(("C01:likelihood-changes-on-requery" + tag, "step %d: a second getLikelihood() returned something else" % t))
+        for i in range(comps):
+            P = covs[:, i * n:(i + 1) * n]
+            Pc, mc, lik = impl.get("cov%d%s" % (i, s)), impl.get("mean%d%s" % (i, s)), impl.get("lik%d%s" % (i, s))
+            scale = max(1.0, float(np.max(np.abs(P))))
+            tol = 1e-7 * cond * scale
+            if model is not None:
+                sm, sc_, sl = model.get("spec_mean%d%s" % (i, s)), model.get("spec_cov%d%s" % (i, s)), model.get("spec_lik%d%s" % (i, s))
+                if not caseio.close(Pc, sc_, tol, 0):
+                    v.append(("C01:cov-not-information-form" + tag, "step %d component %d: max diff %.3g > %.3g" % (t, i, caseio.maxdiff(Pc, sc_), tol)))
+                mt = 1e-7 * cond * max(1.0, float(np.max(np.abs(sm))))
+                if not caseio.close(mc, sm, mt, 0):
+                    v.append(("C01:mean-not-conjugate" + tag, "step %d component %d: max diff %.3g > %.3g" % (t, i, caseio.maxdiff(mc, sm), mt)))
+                if not caseio.close(lik, sl, 1e-300, 1e-7 * cond):
+                    v.append(("C01:likelihood-not-density" + tag, "step %d component %d: %r vs %r" % (t, i, lik, sl)))
+            if not caseio.close(Pc, Pc.T, 1e-9 * cond * scale, 0):
+                v.append(("C01:cov-not-symmetric" + tag, "step %d component %d" % (t, i)))
+            S = (Pc + Pc.T) / 2
+            if np.all(np.isfinite(S)):
+                if np.linalg.eigvalsh(S).min() < -tol:
+                    v.append(("C01:cov-not-psd" + tag, "step %d component %d: lambda_min %.3g" % (t, i, np.linalg.eigvalsh(S).min())))
+                if np.linalg.eigvalsh((P + P.T) / 2 - S).min() < -tol:
+                    v.append(("C01:cov-larger-than-prior" + tag, "step %d component %d" % (t, i)))
+            else:
+                v.append(("C01:cov-not-finite" + tag, "step %d component %d" % (t, i)))
     return v
 
 
@@ -114,7 +147,8 @@ def histogram(cases):
     hk = {}
     for c in cases:
         hk[c.meta["hkind"]] = hk.get(c.meta["hkind"], 0) + 1
-    return {"H_kind": hk, "cond_decade": _count(cases, lambda c: gen.decade(float(c.meta["cond"]))), "shapes": len(h)}
+    return {"H_kind": hk, "cond_decade": _count(cases, lambda c: gen.decade(float(c.meta["cond"]))), "shapes": len(h),
+            "steps_per_object": _count(cases, lambda c: c.meta["steps"])}
 
 
 def _count(cases, f):
